@@ -609,9 +609,10 @@ Lemma etcd_run_app q o alive init pre r post :
    etcd_run q o alive (current_users alive init pre) post)%list.
 Proof.
   revert init; induction pre as [|op pre IH]; intro init; [reflexivity|].
-  destruct op as [l|r']; cbn [app etcd_run current_users fold_left].
+  destruct op as [l|r'|]; cbn [app etcd_run current_users fold_left].
   - apply IH.
   - rewrite IH. reflexivity.
+  - apply IH.
 Qed.
 
 Lemma current_users_last init pre l : current_users true init (pre ++ [EUpdate l])%list = users_of l.
